@@ -120,6 +120,8 @@ let token_texts (toks_field : string) : string list * string list =
 
 let check_sql (which : string) (x : qobs) input (sql : string) (nparams : int option) (kcls : (string * string) list) =
   checked "C02";
+  if String.contains sql '\000' then fail "C02" (which ^ ":NUL-byte-in-the-SQL-text") input [("sql", sql)]
+  else if not (valid_utf8 sql) then fail "C02" (which ^ ":SQL-text-is-not-valid-UTF-8") input [("sql", sql)];
   let (text, n) = match nparams with Some _ -> number_placeholders sql | None -> (sql, 0) in
   match pg_read (chars_of_string text) with
   | None -> fail "C02" (which ^ ":not-one-boolean-expression-for-PostgreSQL") input [("sql", sql)]
@@ -315,7 +317,7 @@ let rval_of_param (s : string) : rval option =   (* observer format: i<dec> f<bi
   | _ -> None
 
 (* classes of the known findings of C03/C04, from the shape of the tree *)
-let sem_class (e : expr) : string =
+let sem_class (e : expr) (sql : string) : string =
   let str_leaf v = match v with VExp (E (VStr _, Literal, _, _, _)) -> true | _ -> false in
   let num_leaf v = match v with VExp (E ((VInt _ | VFloat _), Literal, _, _, _)) -> true | _ -> false in
   let float_leaf v = match v with VExp (E (VFloat _, Literal, _, _, _)) -> true | _ -> false in
@@ -330,7 +332,7 @@ let sem_class (e : expr) : string =
   else if has (fun n -> match n with E (_, Range, VBound (a, b, _), _, _) -> (star a && str_leaf b) || (str_leaf a && star b) | _ -> false) then "K2"
   else if has (fun n -> match n with E (_, Range, VBound (a, b, false), _, _) -> (str_leaf a || str_leaf b) | _ -> false) then "K1"
   else if has (fun n -> match n with E (_, Range, VBound (a, b, _), _, _) -> (float_leaf a || float_leaf b) || (num_leaf a && str_leaf b) || (str_leaf a && num_leaf b) | _ -> false) then "K3"
-  else if has (fun n -> match n with E (VStr p, Wild, _, _, _) -> List.exists (fun c -> String.contains (string_of_chars p) c) ['_'; '%'; '|'; '+'; '('; ')'; '['; ']'; '{'; '}'; '\\'] | _ -> false) then "K11"
+  else if contains sql " SIMILAR TO " && has (fun n -> match n with E (VStr p, Wild, _, _, _) -> List.exists (fun c -> String.contains (string_of_chars p) c) ['_'; '%'; '|'; '+'; '('; ')'; '['; ']'; '{'; '}'; '\\'] | _ -> false) then "K11"
   else ""
 
 (* decimals Go represents exactly as written: the text %v prints denotes the same rational as the float64 *)
@@ -360,7 +362,7 @@ let check_semantics (x : qobs) input (e : expr) =
      | r0 :: _ ->
        if qsem (row_of r0) e <> None then begin
          checked "C03";
-         let cls = let c = sem_class e in if c = "" then [] else [ ("class", c) ] in
+         let cls = let c = sem_class e (match xtext o.(8) with Some s -> s | None -> "") in if c = "" then [] else [ ("class", c) ] in
          if is_bad o.(8) then () else
          if eflag o.(8) <> "|0" then fail "C03" "ToPostgres-fails-on-a-query-of-the-fragment" input cls
          else match xtext o.(8) with
@@ -464,22 +466,29 @@ let check_single (x : qobs) input =
   (if not (is_bad o.(9)) && eflag o.(9) = "|0" then match xtext o.(9) with
      | Some sql -> let ps = params_of o.(9) in check_sql "parameterized" x input sql (Some (if ps = "" then 0 else List.length (String.split_on_char ',' ps))) kcls
      | None -> ());
-  (* ---- C16 (last clause): a lexical error makes Parse fail ---- *)
+  (* ---- C16 (last clause): a character that cannot start a token, an unterminated quote or regexp make Parse fail.
+     Whether the input has one is decided by the specification's lexer (Model/Lex.v, for which C16's theorems hold), and by
+     the implementation's own token stream ---- *)
   let toks = String.split_on_char ' ' o.(0) in
-  (match List.rev toks with
-   | last :: _ when starts_with last (string_of_int terr_num ^ ":") ->
-       checked "C16"; nontrivial "C16";
-       if tree <> None then fail "C16" "lexical-error-but-Parse-succeeds" input [("observed", p)]
-   | _ -> ());
-  (* ---- C15 (last clause): fuzzy / boost anywhere => both SQL entry points fail ---- *)
+  let impl_err = (match List.rev toks with last :: _ -> starts_with last (string_of_int terr_num ^ ":") | [] -> false) in
+  let model_err = (match List.rev (lex_tokens cls (chars_of_string x.q)) with t :: _ -> t.typ = TErr | [] -> false) in
+  if impl_err || model_err then begin
+    checked "C16"; nontrivial "C16";
+    if tree <> None then fail "C16" "lexical-error-but-Parse-succeeds" input [("observed", p); ("tokens", o.(0))]
+  end;
+  (* ---- C15 (last clause): a fuzzy or boost operator anywhere in the query => both SQL entry points fail.
+     "Contains one" is read off the query text (a ~ or ^ token of the specification's lexer, or a FUZZY/BOOST node of the
+     specification's parse), not off the implementation's own tree ---- *)
   (match tree with
-   | Some t ->
-       (match (try Some (parse_tree t) with Unmodelled _ -> None) with
-        | Some e when has_fb e ->
-            checked "C15"; nontrivial "C15";
-            if eflag o.(8) <> "|1" then fail "C15" "fuzzy-or-boost-but-ToPostgres-succeeds" input [("observed", o.(8))];
-            if eflag o.(9) <> "|1" then fail "C15" "fuzzy-or-boost-but-ToParameterizedPostgres-succeeds" input [("observed", o.(9))]
-        | _ -> ())
+   | Some _ ->
+       let mtoks = lex_tokens cls (chars_of_string x.q) in
+       let by_tokens = List.exists (fun (t : token) -> t.typ = TTilde || t.typ = TCarrot) mtoks in
+       let by_tree = (match x.mtree with Some m -> has_fb m | None -> false) in
+       if by_tokens || by_tree then begin
+         checked "C15"; nontrivial "C15";
+         if eflag o.(8) <> "|1" && not (is_bad o.(8)) then fail "C15" "fuzzy-or-boost-but-ToPostgres-succeeds" input [("observed", o.(8))];
+         if eflag o.(9) <> "|1" && not (is_bad o.(9)) then fail "C15" "fuzzy-or-boost-but-ToParameterizedPostgres-succeeds" input [("observed", o.(9))]
+       end
    | None -> ());
   (* ---- C12: JSON round trip of every tree Parse returns for a valid UTF-8 query ---- *)
   (match tree with
